@@ -322,7 +322,7 @@ package keeper
 //@   ensures err == nil ==> ValidatorsByConsAddr == old(ValidatorsByConsAddr)[pcons := Some(pva)]                                          // C14: key_index_follows
 //@   ensures err == nil ==> LastValidatorPowers == old(LastValidatorPowers)
 //@   ensures err == nil ==> Params != None && old(Params) != None && val(Params).BridgeExecutors == plan.NextExecutors && val(Params).Admin == val(old(Params)).Admin
-//@        && val(Params).MaxValidators == val(old(Params)).MaxValidators && val(Params).HookMaxGas == val(old(Params)).HookMaxGas          // C14: executors_replaced_exactly
+//@        && val(Params).MaxValidators == val(old(Params)).MaxValidators && val(Params).HookMaxGas == val(old(Params)).HookMaxGas          // C14,C12: executors_replaced_exactly
 //@   ensures old(Params) != None && addrOK(2, nv.OperatorAddress) && implements(val(nv.ConsensusPubkey).cachedValue, "github.com/cosmos/cosmos-sdk/crypto/types.PubKey")
 //@        && addrOK(1, val(old(Params)).Admin) && decCoinsValid(val(old(Params)).MinGasPrices) && val(old(Params)).MaxValidators != 0
 //@        && (forall j int :: 0 <= j && j < len(val(old(Params)).FeeWhitelist) ==> addrOK(1, val(old(Params)).FeeWhitelist[j]))
